@@ -407,9 +407,7 @@ def x10(ctx, rid):
         if not f.is_coroutine or (f.id not in cc and f.root not in cc):
             continue
         guards = {l for l, ty in enumerate(f.locals) if core.guard_class(ty) and core.guard_class(ty)[1] in ('W', 'U')}
-        if not guards:
-            continue
-        writes = []     # (bb, guard local, field)
+        writes = []     # (bb, guard local / `&mut` local, field)
         for i, b in enumerate(f.blocks):
             if b['c'] or i not in f.reachable():
                 continue
@@ -420,6 +418,12 @@ def x10(ctx, rid):
                 flds = [x for x in core.place_fields(st['d']) if x and not x.isdigit()]
                 if root in guards and flds:
                     writes.append((i, root, flds[0]))
+                elif flds and '*' in st['d'][1] and f.locals[st['d'][0]]['s'].startswith('&mut ') and ('::' in f.locals[st['d'][0]]['s']):
+                    # the same through an exclusive reference (`&mut self` of an index / blob that the caller reached through a
+                    # guard): `self.inner = ..` before the await, `self.filter = ..` after it
+                    writes.append((i, st['d'][0], flds[0]))
+        if not writes:
+            continue
         for c in f.calls:
             if c.bb not in f.reachable() or c.name not in MUTATORS or not c.args or op_local(c.args[0]) is None:
                 continue
@@ -430,8 +434,6 @@ def x10(ctx, rid):
             flds = [x for x in prims.field_of_receiver(f, c) if x and not x.isdigit()]
             if root in guards and flds:
                 writes.append((c.bb, root, flds[0]))
-        if not writes:
-            continue
         n += 1
         ry = core.real_yields(prog, f)
         for (b1, g1, f1) in writes:
@@ -442,7 +444,7 @@ def x10(ctx, rid):
                 between = [y for y in ry if y in after and b2 in f.reach_from([y]) and y != b1]
                 if between:
                     pairs += 1
-                    ctx.bad(rid, 'guarded-update-not-split|%s|%s-%s' % (f.root, f1, f2), f.where(b1), 'field `%s` of a value held under an exclusive guard is written before a suspension point (%s) and field `%s` after it: a client that drops the future in between releases the guard with a half-updated value that later operations trust' % (f1, f.where(between[0]), f2))
+                    ctx.bad(rid, 'guarded-update-not-split|%s|%s-%s' % (f.root, f1, f2), f.where(b1), 'field `%s` of a value held exclusively (guard / &mut) is written before a suspension point (%s) and field `%s` after it: a client that drops the future in between releases the guard with a half-updated value that later operations trust' % (f1, f.where(between[0]), f2))
     ctx.ok(rid, 'scan', '', '%d client-cancellable bodies write fields through an exclusive guard; %d field pairs split by a suspension point' % (n, pairs), nontrivial=False, queries=max(1, n))
 
 
